@@ -145,7 +145,15 @@ std::vector<TecmpPayloadPtr> TECMP::Decoder::GetInterfacePayload(const uint8_t* 
 }
 TecmpPayloadPtr TECMP::Decoder::GetCanPayload(const uint8_t* payloadData, const std::size_t size)
 {
+    // The payload has to hold the header (arbitration ID, data length) and the data bytes it announces
+    const std::size_t headerSize = CanPayload().getLength();
+    if (size < headerSize)
+        return {};
+
     CanPayload payload(payloadData, size);
+    if (size < headerSize + payload.getDlc())
+        return {};
+
     if (payload.isValid())
         return std::make_shared<Payload>(payload);
 
